@@ -6,7 +6,9 @@ from .. import gen_factory
 
 PROP = "C18"
 ENGINE = "F"
-RULE = ("Engine F: generated factories with all edge kinds (Buffer, Fleet, continuous and slotted conveyor), end times "
+RULE = ("Engine S (a quarter of the cases): generated store histories on the two time-less stores, BufferStore, FleetStore and "
+        "the Buffer/Fleet edges: whenever a store has just refreshed its running average (after every put and get) it "
+        "equals the integral of the true content over [0,now]/now. Engine F: generated factories with all edge kinds (Buffer, Fleet, continuous and slotted conveyor), end times "
         "round / non-round, all delay kinds. Oracle from the outside ledger: num_item_processed == pushes, "
         "num_item_received == sink gets, num_item_generated == pushed + discarded + (0|1 held) and == completed "
         "inter-arrival draws, non-blocking machine: num_item_discarded == finished - pushed; after "
@@ -30,11 +32,23 @@ def examples(tier):
     return 4000 if tier == "quick" else 80000
 
 
+S_CLASSES = ["ReservablePriorityReqStore", "ReservableReqStore", "BufferStore", "FleetStore", "Buffer", "Fleet"]
+S_WEIGHTS = {"rp": 7, "rg": 6, "put": 8, "get": 6, "cp": 1, "cg": 2, "settle": 1, "adv": 7}
+
+
 def strategy(tier):
-    return gen_factory.factories(PROFILE)
+    from hypothesis import strategies as st
+    from .. import gen_store
+    f = gen_factory.factories(PROFILE)
+    return st.one_of(f, f, f, gen_store.case(S_CLASSES, S_WEIGHTS, max_ops=40, macros=4, extra=2))
 
 
-shrink_candidates = gen_factory.shrink_candidates
+def shrink_candidates(case):
+    if "ops" in case:
+        from .. import gen_store
+        yield from gen_store.shrink_candidates(case)
+    else:
+        yield from gen_factory.shrink_candidates(case)
 
 
 def near(a, b, T):
@@ -182,7 +196,53 @@ class TruthOracle(FOracle):
         self.res.nontrivial = bool(rich and any_recv)
 
 
+def run_store(case):
+    """Engine S part: the running average every store keeps (time_averaged_num_of_items_in_store) must equal the
+    integral of its true content over [0, now] / now whenever the store has just refreshed it (after a put or get)."""
+    from ..harness_store import StoreRun, Oracle
+
+    class Avg(Oracle):
+        def __init__(self, res):
+            self.res = res
+            self.integ = 0.0
+            self.last = 0.0
+            self.occ = 0
+            self.changes = 0
+
+        def after_op(self, h, op, outcome):
+            if op[0] not in ("put", "get") or outcome["status"] != "ok":
+                return
+            now = h.env.now
+            self.integ += self.occ * (now - self.last)
+            self.last = now
+            self.occ += 1 if op[0] == "put" else -1
+            self.changes += 1
+            if now <= 0:
+                return
+            S = h.subj
+            rep = S.store.time_averaged_num_of_items_in_store
+            exp = self.integ / now
+            if not near(rep, exp, now):
+                self.res.violate((S.cls, "avg_occupancy", "running"),
+                                 "after %s at t=%s the store reports a time-averaged content of %r, the integral of its content over [0,%s]/%s is %r" % (
+                                     op[0], now, rep, now, now, exp))
+            if S.edge is not None:
+                key = AVG_KEY.get(S.cls)
+                if key and not near(S.edge.stats[key], exp, now):
+                    self.res.violate((S.cls, "avg_occupancy", "edge_stats"),
+                                     "after %s at t=%s the edge reports %r, expected %r" % (op[0], now, S.edge.stats[key], exp))
+    res = Result()
+    o = Avg(res)
+    h = StoreRun(case, res, [o])
+    h.run()
+    res.nontrivial = o.changes >= 4 and h.env.now > 0
+    res.classes = ["store:" + case["subject"]["cls"]]
+    return res
+
+
 def run_case(case):
+    if "ops" in case:
+        return run_store(case)
     res = Result()
     book = NodeBook()
     o = TruthOracle(res, book)
